@@ -207,6 +207,24 @@ def dist_to_polyline(p, poly):
     return best
 
 
+def interp1d_refuses(x, resf, method):
+    """Input-class predicate of the skip_errors defect: scipy's interp1d raises ValueError for at least one small
+    segment that is not shorter than the target (too few points for the spline order, or repeated arc lengths
+    caused by zero-length edges)."""
+    import scipy.interpolate
+    c = coords_of(x)
+    for seg in x.small_segments:
+        pts = np.array([c[int(i)][:3] for i in seg])
+        dist = np.insert(np.cumsum(np.linalg.norm(np.diff(pts.T), axis=0)), 0, 0)
+        if dist[-1] < resf or (method == 'cubic' and len(seg) <= 3):
+            continue
+        try:
+            scipy.interpolate.interp1d(dist, pts[:, 0], kind=method)
+        except ValueError:
+            return True
+    return False
+
+
 def nearest_check(ctx, x, y, case, what, queries):
     """queries: list of (label, old node id, new node id or None).  The new node must be a nearest node of
     the resampled neuron to the old node's position."""
@@ -254,8 +272,8 @@ def case_rs(ctx, case, be=None):
     except Exception as e:
         sig = None
         pmx = pm0
-        if method == 'quadratic' and isinstance(e, KeyError):
-            sig = 'resample_skeleton/method=quadratic/two-node-segment/KeyError'
+        if method != 'linear' and isinstance(e, KeyError) and interp1d_refuses(x, resf, method):
+            sig = 'resample_skeleton/non-linear-method/interp1d-refuses-a-segment/KeyError'
         if isinstance(e, AttributeError) and 'to_nunmeric' in str(e):
             sig = 'resample_skeleton/id-overflow-branch/pd.to_nunmeric-AttributeError'
         ctx.oracle(False, f'{what} raised {type(e).__name__}: {str(e)[:100]}', case, signature=sig)
@@ -278,7 +296,10 @@ def case_rs(ctx, case, be=None):
         return
     # -- anchors keep id and coordinates ---------------------------------------------------------
     anchors = topo_fix(pm0)
-    ok = all(a in c1 and c1[a][:3] == c0[a][:3] for a in anchors)
+    if method == 'linear':
+        ok = all(a in c1 and c1[a][:3] == c0[a][:3] for a in anchors)
+    else:   # splines pass through their knots only up to rounding
+        ok = all(a in c1 and all(close(c1[a][k], c0[a][k]) for k in range(3)) for a in anchors)
     ctx.oracle(ok, f'{what}: a root / leaf / branch point lost its id or moved', case)
     if not ok:
         return
@@ -470,7 +491,7 @@ def pick_res(r, rows):
 
 def gen_cases(ctx, nf=None):
     r = ctx.rng
-    n = nf or ctx.budget(200, 1500)
+    n = nf or ctx.budget(200, 3000)
     for k in range(n):
         rows, meta = G.rand_forest(r, nmax=10 if k % 3 == 0 else 26, allow_zero_edges=(k % 4 == 0))
         ids = [rw['id'] for rw in rows]
@@ -564,7 +585,8 @@ def run(ctx, be=None):
         streams.append(small_scope(ctx))
     for st in streams:
         for kind, case in st:
-            ctx.case(dict(case, kind=kind), nontrivial=len(case['rows']) >= 3)
+            case = dict(case, kind=kind)
+            ctx.case(case, nontrivial=len(case['rows']) >= 3)
             m = case['meta']
             ctx.count('shape', m['shape']); ctx.count('labeling', m['labeling']); ctx.count('kind', kind)
             RUNNERS[kind](ctx, case, be)
@@ -616,7 +638,7 @@ def shrink(ctx, f):
                 continue
             sub.failures = []
             try:
-                RUNNERS[kind](sub, {k: v for k, v in c2.items() if k != 'kind'}, case.get('be'))
+                RUNNERS[kind](sub, dict(c2, kind=kind), case.get('be'))
             except Exception:
                 continue
             hit = [x for x in sub.failures if x['kind'] == 'oracle' and _norm(x['what']) == want]
@@ -630,5 +652,6 @@ def shrink(ctx, f):
 
 def replay(ctx, rp):
     case = rp['case']
+    kind = case.get('kind') or ('ds' if 'f' in case else 'rs')
     ctx.case(case)
-    RUNNERS[case['kind']](ctx, {k: v for k, v in case.items() if k != 'kind'}, case.get('be'))
+    RUNNERS[kind](ctx, dict(case, kind=kind), case.get('be'))
